@@ -97,6 +97,17 @@ impl V {
     }
 
     pub fn to_json(&self) -> Value {
+        self.to_json_depth(0)
+    }
+
+    /// JSON rendering for witnesses; nesting beyond 10 levels is summarised (JSON parsers,
+    /// including the supervisor's, limit recursion depth)
+    fn to_json_depth(&self, d: usize) -> Value {
+        if d >= 10 {
+            if let V::Obj(_) | V::Arr(_) = self {
+                return json!({"container_nested_further_levels": self.depth()});
+            }
+        }
         match self {
             V::Num(b) => json!({"num_bits": format!("{:016x}", b), "approx": format!("{:?}", f64::from_bits(*b))}),
             V::Bool(b) => json!(b),
@@ -116,16 +127,16 @@ impl V {
                         } else {
                             k.clone()
                         };
-                        json!([k, v.to_json()])
+                        json!([k, v.to_json_depth(d + 1)])
                     })
                     .collect();
                 json!({ "obj": items })
             }
             V::Arr(a) => {
                 if a.len() > 12 {
-                    json!({"arr_len": a.len(), "head": a.iter().take(4).map(|x| x.to_json()).collect::<Vec<_>>()})
+                    json!({"arr_len": a.len(), "head": a.iter().take(4).map(|x| x.to_json_depth(d + 1)).collect::<Vec<_>>()})
                 } else {
-                    json!({"arr": a.iter().map(|x| x.to_json()).collect::<Vec<_>>()})
+                    json!({"arr": a.iter().map(|x| x.to_json_depth(d + 1)).collect::<Vec<_>>()})
                 }
             }
             V::Null => json!("null"),
